@@ -159,6 +159,20 @@ CHECKS = {
         "allowance of 4x their sum.",
    technique="TLA+ spec (Hwm.tla, Session.tla, Delivery.tla) + TLC; TLC trace validation of recorded API calls (timeouts) and delivery histories",
    design_ref="DESIGN.md 5 (C14)"),
+ "C15": dict(
+   text="TLC checks Linger.tla exhaustively (socket core Lingering phase with deadline and pipe drop; session closing event, Stop, "
+        "flush-then-stop, own deadline, stream shutdown; a reading peer whose reads can meet end-of-stream; integer clock; LINGER in "
+        "{-1, 0, bounded}): DeliveredPrefix, DropOnlyWhenAllowed, AllDelivered, Linger0Prompt, BoundedClose, SessionDeadline - and must "
+        "find a counterexample under each of three switches that describe the pinned revision. Real sockets are closed (close / term / "
+        "handle drop) with 0 .. 3000 messages of 64 B .. 200 kB queued (beyond SNDHWM and kernel buffers), LINGER in {-1, 0, 300 ms .. 10 s}, "
+        "reading, paced and stalled peers, tcp / ipc / inproc, PUSH-PULL, DEALER-ROUTER, ROUTER-DEALER, PUB-SUB; the recorded history "
+        "(accepted sends, the close call, hook events of the socket core and of the session with what each dropped and when, what the "
+        "peer received and whether intact) sets the variables of Linger.tla in Trace_Linger.tla and TLC evaluates Linger's own invariants "
+        "on every state of every run.",
+   note="Clock tolerance 25 ms (not before the period ends), 2 s allowance (not later), 1 s for 'promptly'. The peer reads until nothing "
+        "arrives for 1.5 s. io_uring sessions are covered by C20, not here.",
+   technique="TLA+ spec (Linger.tla) + TLC exhaustive incl. as-is variants; TLC trace validation (Trace_Linger.tla) of recorded closes of real sockets with hook events",
+   design_ref="DESIGN.md 5 (C15)"),
 }
 
 NA_DEFAULT = "check not built yet (construction in progress; see DESIGN.md section 10)"
